@@ -112,7 +112,7 @@ def run(scn, stats):
         stats.sample({"definition": defn, "history": common.history_summary(r, 40), "events": sorted(w.events)})
 
 
-CFG = gen.cfg(items=0.15, retry=0.2, p_loop=0.35, retry_cmd=True)
+CFG = gen.cfg(items=0.15, retry=0.2, p_loop=0.35, retry_cmd=True, dict_vals=True)
 FLAGS = {"pause": 1, "cancel": 1, "restore": 1}
 CONTROLS = {"rerun": 1}
 
